@@ -4,6 +4,7 @@ import (
 	"fmt"
 	"go/ast"
 	"go/token"
+	"regexp"
 	"sort"
 	"strings"
 )
@@ -192,6 +193,119 @@ func init() {
 			fmt.Fprintf(&sb, "/-- the `QUARTER` entry of `attrType`: `month := int(t.Month()); strconv.Itoa(…)` -/\ndef quarter (month : Int) : Int := %s\n\n", quarter)
 		} else {
 			sb.WriteString(untranslatable("quarter"))
+		}
+
+		// round 4: argument-count guards, key-words, mode / zone key-words, attribute bodies
+		squash := func(n ast.Node) string { return strings.Join(strings.Fields(c.Print(n)), "") }
+		reBetween := regexp.MustCompile(`^!isArgCountBetween\(args,(\d+),(\d+)\)$`)
+		reNe := regexp.MustCompile(`^len\(args\)!=(\d+)$`)
+		reOut := regexp.MustCompile(`^len\(args\)<(\d+)\|\|len\(args\)>(\d+)$`)
+		var ranges []string
+		rangesOk := true
+		for _, p := range [][2]string{{"time", "kfTimeParse"}, {"timeformat", "kfTimeFormat"}, {"duration", "kfDuration"}, {"durationformat", "kfDurationFormat"},
+			{"buckettime", "kfBucketTime"}, {"timeattr", "kfTimeAttr"}} {
+			fd := c.Func(file, p[1])
+			found := false
+			if fd != nil && fd.Body != nil && len(fd.Body.List) > 0 {
+				if is, isIf := fd.Body.List[0].(*ast.IfStmt); isIf && is.Init == nil {
+					cond := squash(is.Cond)
+					if m := reBetween.FindStringSubmatch(cond); m != nil {
+						ranges = append(ranges, fmt.Sprintf("(%s, %s, %s)", leanStr(p[0]), m[1], m[2]))
+						found = true
+					} else if m := reNe.FindStringSubmatch(cond); m != nil {
+						ranges = append(ranges, fmt.Sprintf("(%s, %s, %s)", leanStr(p[0]), m[1], m[1]))
+						found = true
+					} else if m := reOut.FindStringSubmatch(cond); m != nil {
+						ranges = append(ranges, fmt.Sprintf("(%s, %s, %s)", leanStr(p[0]), m[1], m[2]))
+						found = true
+					}
+				}
+			}
+			if !found {
+				rangesOk = false
+			}
+		}
+		if rangesOk {
+			fmt.Fprintf(&sb, "/-- the argument-count guard that opens each helper: (expression name, least, most) -/\ndef argRanges : List (String × Nat × Nat) := [%s]\n\n", strings.Join(ranges, ", "))
+		} else {
+			sb.WriteString(untranslatable("argRanges"))
+		}
+		// the string cases of the first `switch` with tag `tag` inside function fn, one list per case clause
+		switchCases := func(fn, tag string) ([][]string, bool) {
+			fd := c.Func(file, fn)
+			if fd == nil || fd.Body == nil {
+				return nil, false
+			}
+			var out [][]string
+			done, good := false, true
+			ast.Inspect(fd.Body, func(n ast.Node) bool {
+				sw, isSw := n.(*ast.SwitchStmt)
+				if done || !isSw || sw.Tag == nil || squash(sw.Tag) != tag {
+					return !done
+				}
+				done = true
+				for _, st := range sw.Body.List {
+					cc := st.(*ast.CaseClause)
+					if cc.List == nil {
+						continue // default
+					}
+					var ks []string
+					for _, e := range cc.List {
+						k, ok := StringLit(e)
+						if !ok {
+							good = false
+						}
+						ks = append(ks, k)
+					}
+					out = append(out, ks)
+				}
+				return false
+			})
+			return out, done && good
+		}
+		emitCases := func(name, doc, fn, tag string) {
+			if cs, ok := switchCases(fn, tag); ok {
+				parts := make([]string, len(cs))
+				for i, ks := range cs {
+					parts[i] = leanStrList(ks)
+				}
+				fmt.Fprintf(&sb, "/-- %s -/\ndef %s : List (List String) := [%s]\n\n", doc, name, strings.Join(parts, ", "))
+			} else {
+				sb.WriteString(untranslatable(name))
+			}
+		}
+		emitCases("timeKeywords", "`kfTimeParse`: the cases of `switch strings.ToLower(val)` on a constant first argument", "kfTimeParse", "strings.ToLower(val)")
+		emitCases("parseModes", "`smartDateParseWrapper`: the non-default cases of `switch strings.ToLower(format)`", "smartDateParseWrapper", "strings.ToLower(format)")
+		emitCases("zoneKeywords", "`parseTimezoneLocation`: the non-default cases of `switch strings.ToUpper(tzf)`", "parseTimezoneLocation", "strings.ToUpper(tzf)")
+		if attr != nil {
+			type kv struct{ k, v string }
+			var bodies []kv
+			good := true
+			for _, el := range attr.Elts {
+				e, isKV := el.(*ast.KeyValueExpr)
+				if !isKV {
+					good = false
+					break
+				}
+				k, ok := StringLit(e.Key)
+				if !ok {
+					good = false
+					break
+				}
+				bodies = append(bodies, kv{k, squash(e.Value)})
+			}
+			if good {
+				sort.Slice(bodies, func(i, j int) bool { return bodies[i].k < bodies[j].k })
+				parts := make([]string, len(bodies))
+				for i, b := range bodies {
+					parts[i] = fmt.Sprintf("(%s, %s)", leanStr(b.k), leanStr(b.v))
+				}
+				fmt.Fprintf(&sb, "/-- the functions of `attrType` as source text (white space removed), sorted by key -/\ndef attrBodies : List (String × String) := [\n  %s]\n\n", strings.Join(parts, ",\n  "))
+			} else {
+				sb.WriteString(untranslatable("attrBodies"))
+			}
+		} else {
+			sb.WriteString(untranslatable("attrBodies"))
 		}
 
 		for _, fn := range []string{"namedTimeFormatToFormat", "smartDateParseWrapper", "kfTimeParse", "kfTimeFormat", "kfDuration", "kfDurationFormat",
